@@ -178,6 +178,8 @@ def run_shadow(shard, rec, B):
         base = B.State(tg.copy(), tp.copy(), r)
         before = snapshot(base)
         desc = {"circuit": kind, "N": N, "base": {"rows": _show(tg[r:N], tp[r:N]), "r": r}}
+        if kind.startswith("fixed") and rng.integers(2):
+            circ.forward(B.PauliList(gen.rand_list(rng, 2, N), np.zeros(2, dtype=np.int64)))    # harmless use before the shadow
         # hook: record every basis state the circuit yields, in order
         yielded = []
         orig_povm = circ.povm
